@@ -168,10 +168,46 @@ theorem C04_arm_symStr (ext : Ext F) (s : Scalar) (v : GoVal F)
   simp [armSoundIn] at hs
 
 
+/-- a value whose kind is a float kind is a `.flt` -/
+theorem flt_of_kind (v : GoVal F) (h : v.kind.isFloat = true) (hw : v.wf = true) : ∃ k x, v = .flt k x := by
+  cases v with
+  | flt k x => exact ⟨k, x, rfl⟩
+  | int k n => cases k <;> simp_all [GoVal.kind, Kind.isFloat, GoVal.wf, kindRange]
+  | _ => simp_all [GoVal.kind, Kind.isFloat]
+
+/-- the finiteness-checked float arms: a finite float of the declared width, or an error -/
 theorem C04_arm_convStrict (ext : Ext F) (s : Scalar) (t : NumT) (v : GoVal F)
     (hs : armSoundIn s v.kind (.convStrict t) = true) (hw : v.wf = true) :
     checkIn ext s v (applyAction ext (.convStrict t) v) = true := by
-  simp [armSoundIn] at hs
+  simp only [armSoundIn, Bool.and_eq_true, Bool.or_eq_true, beq_iff_eq] at hs
+  obtain ⟨k, x, rfl⟩ := flt_of_kind v hs.1 hw
+  rcases hs.2 with ⟨rfl, rfl⟩ | ⟨rfl, rfl⟩
+  · simp only [applyAction, convTo]
+    by_cases hf : ext.isFinite (ext.round32 x) = true
+    · simp [hf, checkIn, GoVal.kind, Scalar.inKind]
+    · simp [hf, checkIn]
+  · simp only [applyAction, convTo]
+    by_cases hf : ext.isFinite x = true
+    · simp [hf, checkIn, GoVal.kind, Scalar.inKind]
+    · simp [hf, checkIn]
+
+theorem C04_arm_parseFloatFinite (ext : Ext F) (s : Scalar) (v : GoVal F)
+    (hs : armSoundIn s v.kind .parseFloatFinite = true) (hw : v.wf = true) :
+    checkIn ext s v (applyAction ext .parseFloatFinite v) = true := by
+  simp only [armSoundIn, Bool.and_eq_true, beq_iff_eq] at hs
+  obtain ⟨hk, rfl⟩ := hs
+  cases v with
+  | str str =>
+    simp only [applyAction]
+    cases hp : ext.parse str with
+    | none => simp [checkIn]
+    | some x =>
+      by_cases hf : ext.isFinite x = true
+      · simp [hf, checkIn, GoVal.kind, Scalar.inKind]
+      · simp [hf, checkIn]
+  | int k n => simp only [GoVal.kind] at hk; subst hk; simp [GoVal.wf, kindRange] at hw
+  | flt k x => simp only [GoVal.kind] at hk; subst hk; simp [GoVal.wf, Kind.isFloat] at hw
+  | _ => simp [GoVal.kind] at hk
 
 /-- **C04_arm.** -/
 theorem C04_arm (ext : Ext F) (laws : ExtLaws ext) (s : Scalar) (a : Action) (v : GoVal F)
@@ -195,6 +231,7 @@ theorem C04_arm (ext : Ext F) (laws : ExtLaws ext) (s : Scalar) (a : Action) (v 
   | symStr => exact C04_arm_symStr ext s v hs hw
   | convStrict t => exact C04_arm_convStrict ext s t v hs hw
   | parseInt32Keep => simp [armSoundIn] at hs
+  | parseFloatFinite => exact C04_arm_parseFloatFinite ext s v hs hw
   | fmtUint => simp [armSoundIn] at hs
 
 /-- **C04_leaf.**  Table level: whatever arm the regenerated `CoerceIn` table selects for the supplied
